@@ -4,6 +4,7 @@ package props
 
 import (
 	"context"
+	"errors"
 	"fmt"
 	"testing"
 
@@ -14,8 +15,12 @@ import (
 
 // C33: the incremental executor memoises and invalidates exactly.
 type C33Op struct {
-	Kind  string `json:"kind"` // run | evict | evict-bump
+	Kind  string `json:"kind"` // run | run-cancel | evict | evict-bump
 	Nodes []int  `json:"nodes"`
+	// CancelAt (run-cancel only): the scheduler cancels this Run's context this
+	// many decisions after the operation started (0: before Run is called; a
+	// large value may fall after its return, which cancels nothing).
+	CancelAt int `json:"cancel_at,omitempty"`
 }
 
 type C33Case struct {
@@ -28,6 +33,10 @@ type C33Case struct {
 func genC33(t *rapid.T) C33Case {
 	c := C33Case{Graph: genGraph(t, 7, true), Par: rapid.IntRange(1, 4).Draw(t, "par")}
 	nclients := rapid.IntRange(1, 3).Draw(t, "nclients")
+	// One case in three has Runs whose context is cancelled at some point: a
+	// cancelled Run is still a Run of the history, and what it leaves behind
+	// (a leader that gives up, stragglers) must not harm the other Runs.
+	withCancel := rapid.IntRange(0, 2).Draw(t, "withCancel") == 0
 	for i := 0; i < nclients; i++ {
 		nops := rapid.IntRange(1, 4).Draw(t, "nops")
 		var ops []C33Op
@@ -38,7 +47,12 @@ func genC33(t *rapid.T) C33Case {
 			case 1:
 				ops = append(ops, C33Op{Kind: "evict-bump", Nodes: genRoots(t, c.Graph.N)})
 			default:
-				ops = append(ops, C33Op{Kind: "run", Nodes: genRoots(t, c.Graph.N)})
+				op := C33Op{Kind: "run", Nodes: genRoots(t, c.Graph.N)}
+				if withCancel && rapid.IntRange(0, 2).Draw(t, "cancelThis") == 0 {
+					op.Kind = "run-cancel"
+					op.CancelAt = rapid.IntRange(0, 60).Draw(t, "cancelAt")
+				}
+				ops = append(ops, op)
 			}
 		}
 		c.Clients = append(c.Clients, ops)
@@ -52,10 +66,10 @@ func execC33(t *testing.T, c C33Case) *Verdict {
 	var clients []sim.Client
 	units := 0
 	for i, ops := range c.Clients {
-		ops := ops
+		i, ops := i, ops
 		units += len(ops)
 		clients = append(clients, sim.Client{Name: fmt.Sprintf("c%d", i), Fn: func() {
-			for _, op := range ops {
+			for k, op := range ops {
 				sim.Yield("h.op", "")
 				if w.viol != nil {
 					return
@@ -63,7 +77,27 @@ func execC33(t *testing.T, c C33Case) *Verdict {
 				switch op.Kind {
 				case "run":
 					rr := w.doRun(context.Background(), op.Nodes)
-					checkC33Run(w, rr)
+					checkC33Run(w, rr, false)
+				case "run-cancel":
+					ctx, cancel := context.WithCancel(context.Background())
+					finished, inFlight := false, false
+					if op.CancelAt == 0 {
+						inFlight = true
+						sim.S().Fault("cancel-run-before-start")
+						cancel()
+					} else {
+						sim.After(op.CancelAt, fmt.Sprintf("cancel c%d.%d", i, k), func() {
+							if !finished {
+								inFlight = true
+								sim.S().Fault("cancel-run-in-flight")
+								cancel()
+							}
+						})
+					}
+					rr := w.doRun(ctx, op.Nodes)
+					finished = true
+					checkC33Run(w, rr, inFlight)
+					cancel()
 				case "evict":
 					w.doEvict(op.Nodes, false)
 				case "evict-bump":
@@ -103,10 +137,23 @@ func execC33(t *testing.T, c C33Case) *Verdict {
 // checkC33Run is evaluated right after a Run returned, while the inputs are
 // still the snapshot the run saw (evictions are excluded while a run is
 // active).
-func checkC33Run(w *gworld, rr runResult) {
+//
+// cancelled: this Run's own context was cancelled before it returned. Such a
+// Run may fail with the cancellation error; if it returns results all the same
+// they are judged like any others. Whatever a cancelled Run did, every other
+// Run must still get either the right value or -- only for a query whose
+// current memo entry the model knows to be a propagated error (see
+// gworld.poisoned) -- that error; never a wrong value without an error.
+func checkC33Run(w *gworld, rr runResult, cancelled bool) {
 	switch {
 	case rr.panicked != nil:
 		w.fail(viol("C33/run-panicked", "Run(%v) panicked: %v", rr.roots, rr.panicked))
+		return
+	case rr.err != nil && cancelled:
+		if !errors.Is(rr.err, context.Canceled) {
+			w.fail(viol("C33/run-failed", "cancelled Run(%v) failed with %v, which is not the cancellation error", rr.roots, rr.err))
+		}
+		sim.S().Probe("run:cancelled")
 		return
 	case rr.err != nil:
 		w.fail(viol("C33/run-failed", "Run(%v) failed without any fault: %v", rr.roots, rr.err))
@@ -119,6 +166,10 @@ func checkC33Run(w *gworld, rr runResult) {
 	for i, r := range rr.roots {
 		res := rr.results[i]
 		if res.Fatal != nil {
+			if w.memo[r] && w.poisoned[r] && errors.Is(res.Fatal, context.Canceled) {
+				sim.S().Probe("run:saw-poisoned-memo")
+				continue
+			}
 			w.fail(viol("C33/unexpected-fatal", "Run(%v): query %d failed: %v", rr.roots, r, res.Fatal))
 			return
 		}
@@ -127,7 +178,14 @@ func checkC33Run(w *gworld, rr runResult) {
 			return
 		}
 	}
-	for k := range w.downClosure(rr.roots) {
+	closure := w.downClosure(rr.roots)
+	for k := range closure {
+		if w.memo[k] && w.poisoned[k] {
+			// a poisoned entry did not resolve all of its dependencies
+			closure = nil
+		}
+	}
+	for k := range closure {
 		if !w.memo[k] {
 			w.fail(viol("C33/evicted-key-not-recomputed", "after Run(%v) (run %d) query %d is needed but was not executed since it was last evicted (a stale memo was used)", rr.roots, rr.tag, k))
 			return
